@@ -23,6 +23,7 @@ Record lcase := LCase {
   l_cfg : config;
   l_sni : str;
   l_ip : str;
+  l_conn : bool;                   (* hello.Conn != nil *)
   l_policy : policy;               (* Config.CertSelection: none, or one of the harness doubles *)
   l_envx : envx;                   (* IDNA form of the server name, storage content, eviction victim *)
   l_stored_complete : amap bool;   (* per stored certificate (by hash): chain and key present *)
@@ -56,12 +57,12 @@ Section Run.
   Definition self (c : lcase) : state -> name -> option cert := sel_policy (supf c) (validf c) (l_policy c).
 
   Definition run_lookup (c : lcase) : result * state :=
-    lookup_x lower is_space (self c) (l_state c) (l_cap c) (l_cfg c) (l_sni c) (l_ip c) (l_envx c).
+    lookup_x lower is_space (self c) (l_conn c) (l_state c) (l_cap c) (l_cfg c) (l_sni c) (l_ip c) (l_envx c).
 
   (** the index names tried for a match, in order of preference *)
   Definition match_names (c : lcase) : list name :=
     let n := normalize lower is_space (l_sni c) in
-    if is_nil n then [l_ip c] else n :: wildcard_candidates n.
+    if is_nil n then (if l_conn c then [l_ip c] else []) else n :: wildcard_candidates n.
   Definition first_listed (s : state) (cands : list name) : option name :=
     find (fun m => negb (is_nil (idx s m))) cands.
 
@@ -205,11 +206,11 @@ Definition get_case : dec case :=
    if k =? 0 then
      t <- get_tbls ;;
      cap <- get_nat ;; s <- get_state ;; at_ <- get_list (get_pair get_str get_attr) ;;
-     d <- get_str ;; f <- get_str ;; sni <- get_str ;; ip <- get_str ;;
+     d <- get_str ;; f <- get_str ;; sni <- get_str ;; ip <- get_str ;; conn <- get_bool ;;
      pol <- get_policy ;; idna <- get_opt get_str ;; st <- get_list get_stored ;;
      br <- get_list get_str ;; v <- get_opt get_str ;; o <- get_obs ;; post <- get_state ;;
      ret (KLookup (fst t) (snd t)
-            (LCase cap s at_ (Config d f) sni ip pol (EnvX idna (map fst st) br v) (map snd st) o post))
+            (LCase cap s at_ (Config d f) sni ip conn pol (EnvX idna (map fst st) br v) (map snd st) o post))
    else if k =? 1 then
      lt <- get_list (get_pair get_n get_n) ;; a <- get_str ;; b <- get_str ;; o <- get_bool ;;
      ret (KMatch lt a b o)
